@@ -14,6 +14,12 @@ pub enum FsOp {
     Clear,
     Reserve(usize),
     Clone,
+    /// replace the stack by `FlatStack::with_capacity(n)`
+    WithCap(usize),
+    /// replace the stack by `FlatStack::merge_capacity` over k references to itself
+    MergeCap(usize),
+    /// `reserve_regions` for a temporary region holding the given values
+    ResRegs(Vec<U>),
     /// serde_json round trip of the whole FlatStack; continue with the deserialised stack
     Serde,
     Observe,
@@ -33,6 +39,9 @@ pub fn parse_fs_op(s: &str) -> Result<FsOp, String> {
         ["clear"] => FsOp::Clear,
         ["reserve", n] => FsOp::Reserve(usize::from_str_radix(n, 16).map_err(|e| e.to_string())?),
         ["clone"] => FsOp::Clone,
+        ["withcap", n] => FsOp::WithCap(usize::from_str_radix(n, 16).map_err(|e| e.to_string())?),
+        ["mergecap", n] => FsOp::MergeCap(usize::from_str_radix(n, 16).map_err(|e| e.to_string())?),
+        ["resregs", l] => FsOp::ResRegs(list(l)?),
         ["serde"] => FsOp::Serde,
         ["observe"] => FsOp::Observe,
         _ => return Err(format!("bad fs op {s}")),
@@ -45,11 +54,30 @@ fn caught<T>(f: impl FnOnce() -> T) -> Option<T> {
 const ILL: u128 = 99;
 const PANIC: u128 = 98;
 
-pub fn run_fs<R, S>(ops: &[FsOp]) -> Vec<U>
+/// serde_json round trip of a whole stack: the deserialised stack and [state before, state after]
+pub fn fs_serde<R, S>(fs: &FlatStack<R, S>) -> (FlatStack<R, S>, U)
 where
-    R: Caps + Clone + serde::Serialize + for<'a> serde::Deserialize<'a>,
+    R: Region + serde::Serialize + for<'a> serde::Deserialize<'a>,
+    S: flatcontainer::impls::index::IndexContainer<R::Index> + serde::Serialize + for<'a> serde::Deserialize<'a>,
+{
+    let before = crate::state::state_u(fs);
+    let text = serde_json::to_string(fs).expect("serialize");
+    let back: FlatStack<R, S> = serde_json::from_str(&text).expect("deserialize");
+    let after = crate::state::state_u(&back);
+    (back, U::L(vec![before, after]))
+}
+
+pub type FsSerde<R, S> = Option<fn(&FlatStack<R, S>) -> (FlatStack<R, S>, U)>;
+pub type FsClone<R, S> = Option<fn(&FlatStack<R, S>) -> FlatStack<R, S>>;
+pub fn fs_clone<R: Region + Clone, S: Clone>(fs: &FlatStack<R, S>) -> FlatStack<R, S> {
+    fs.clone()
+}
+
+pub fn run_fs<R, S>(ops: &[FsOp], serde: FsSerde<R, S>, clone: FsClone<R, S>) -> Vec<U>
+where
+    R: Caps,
     for<'a> R: Push<&'a <R as Region>::Owned>,
-    S: flatcontainer::impls::index::IndexContainer<R::Index> + Clone + 'static + serde::Serialize + for<'a> serde::Deserialize<'a>,
+    S: flatcontainer::impls::index::IndexContainer<R::Index> + 'static,
 {
     let mut fs = FlatStack::<R, S>::default();
     let mut nidx = 0usize;
@@ -106,25 +134,52 @@ where
                 Some(()) => out.push(U::None),
                 None => stop!(PANIC),
             },
-            FsOp::Clone => match caught(|| fs.clone()) {
+            FsOp::Clone => match clone {
+                None => stop!(ILL),
+                Some(c) => match caught(|| c(&fs)) {
+                    Some(f) => {
+                        fs = f;
+                        out.push(U::None)
+                    }
+                    None => stop!(PANIC),
+                },
+            },
+            FsOp::WithCap(n) => match caught(|| FlatStack::<R, S>::with_capacity(*n)) {
                 Some(f) => {
                     fs = f;
                     out.push(U::None)
                 }
                 None => stop!(PANIC),
             },
-            FsOp::Serde => match caught(|| {
-                let before = crate::state::state_u(&fs);
-                let text = serde_json::to_string(&fs).expect("serialize");
-                let back: FlatStack<R, S> = serde_json::from_str(&text).expect("deserialize");
-                let after = crate::state::state_u(&back);
-                (back, U::L(vec![before, after]))
-            }) {
-                Some((back, u)) => {
-                    fs = back;
-                    out.push(u)
+            FsOp::MergeCap(k) => match caught(|| FlatStack::<R, S>::merge_capacity(std::iter::repeat(&fs).take(*k))) {
+                Some(f) => {
+                    fs = f;
+                    out.push(U::None)
                 }
                 None => stop!(PANIC),
+            },
+            FsOp::ResRegs(us) => match us.iter().map(R::of_u).collect::<Option<Vec<_>>>() {
+                None => stop!(ILL),
+                Some(vs) => match caught(|| {
+                    let mut tmp = R::default();
+                    for v in &vs {
+                        let _ = tmp.push(v);
+                    }
+                    fs.reserve_regions(std::iter::once(&tmp));
+                }) {
+                    Some(()) => out.push(U::None),
+                    None => stop!(PANIC),
+                },
+            },
+            FsOp::Serde => match serde {
+                None => stop!(ILL),
+                Some(f) => match caught(|| f(&fs)) {
+                    Some((back, u)) => {
+                        fs = back;
+                        out.push(u)
+                    }
+                    None => stop!(PANIC),
+                },
             },
             FsOp::Observe => {
                 let n = fs.len();
@@ -164,6 +219,7 @@ where
                     U::L(used[k..].to_vec()),
                     U::bool(hint_ok),
                     U::L(caps[k..].to_vec()),
+                    U::L(used[..k].to_vec()),
                 ]));
             }
         }
